@@ -1801,7 +1801,9 @@ func (e *Engine) doIndexAddr(c *ctx, x *ssa.IndexAddr, idx int) int {
 		}
 		if table {
 			var inb *Term
-			if isg {
+			if !isg && uint64(n) > wmask(iv.W) {
+				inb = e.ts.True // every value of the index type is in range
+			} else if isg {
 				inb = e.ts.And(e.ts.Cmp(OpSLe, e.ts.Const(iv.W, 0), iv), e.ts.Cmp(OpSLt, iv, e.ts.Const(iv.W, uint64(n))))
 			} else {
 				inb = e.ts.Cmp(OpULt, iv, e.ts.Const(iv.W, uint64(n)))
@@ -1881,7 +1883,9 @@ func (e *Engine) doIndex(c *ctx, x *ssa.Index, idx int) int {
 			return stepStop
 		}
 		var inb *Term
-		if isg {
+		if !isg && uint64(len(vals)) > wmask(iv.W) {
+			inb = e.ts.True
+		} else if isg {
 			inb = e.ts.And(e.ts.Cmp(OpSLe, e.ts.Const(iv.W, 0), iv), e.ts.Cmp(OpSLt, iv, e.ts.Const(iv.W, uint64(len(vals)))))
 		} else {
 			inb = e.ts.Cmp(OpULt, iv, e.ts.Const(iv.W, uint64(len(vals))))
